@@ -56,7 +56,7 @@ def gen_case(rng, shape=None):
     nd = len(shape)
     dt = rng.choice('fffib')
     dims = rng.sample(gen.DIMS, nd)
-    sp = gen.spec(rng, dims=dims, sizes=list(shape), dtype=dt)
+    sp = gen.spec(rng, dims=dims, sizes=list(shape), dtype=dt, narrow=True)
     pat = 'none'
     if dt == 'f':
         pat = rng.choice(NANPAT)
